@@ -84,7 +84,7 @@ T_CG = 'pv/callgraph.py name/attribute based call resolution (dynamic dispatch t
 T_TY = 'pv/tyeng.py structural type inference (annotations in penman/types.py are taken as given)'
 T_DOC = 'the documented behaviour transcribed in spec/*.json (docs/notation.rst, docs/api, command-line help)'
 
-_p('C01', ['R20', 'R8g', 'R8f', 'R8d', 'R8e', 'R45', 'R23lex', 'R69', 'R19', 'R70', 'R71', 'R8a', 'R8b', 'R8c', 'R10', 'R9', 'R16', 'R43'],
+_p('C01', ['R20', 'R8g', 'R8f', 'R8d', 'R8e', 'R45', 'R23lex', 'R69', 'R19', 'R70', 'R71', 'R8a', 'R8b', 'R8c', 'R10', 'R9', 'R16', 'R43', 'R73'],
    'option-taint abstract interpretation of the formatter; regex automata for the adjacency of written pieces',
    'R20: in penman/_format.py the values of indent and compact can reach only whitespace pieces (taint analysis over every '
    'string the formatter concatenates or joins); content, order and presence of the other pieces do not depend on them. R8g: '
@@ -97,7 +97,7 @@ _p('C01', ['R20', 'R8g', 'R8f', 'R8d', 'R8e', 'R45', 'R23lex', 'R69', 'R19', 'R7
    'strings that are not grammar-valid are outside the statement. The parser side is covered at token-kind level by C07.',
    'Exact decisions on regex languages and on the dataflow of two option values; a set of necessary conditions, not a proof of the round trip.',
    [TRUST_RE, 'pv/rx.py', T_CFG])
-_p('C02', ['R1', 'R36', 'R49', 'R28', 'R29', 'R5', 'R12', 'R64', 'R15', 'R14', 'R58', 'R53', 'R50', 'R67', 'R66', 'R4', 'R2', 'R1b'],
+_p('C02', ['R1', 'R36', 'R49', 'R28', 'R29', 'R5', 'R12', 'R64', 'R15', 'R14', 'R58', 'R53', 'R50', 'R67', 'R66', 'R4', 'R2', 'R1b', 'R73'],
    'abstract interpretation of two parallel lists; must-pass-through / exactly-once path checks on CFGs; propositional equivalence of sibling predicates',
    'R1: _interpret_node updates the triple list and the epidata list with the same operation in the same order on every path '
    '(so triples[i] and epidata[i] stay in step) and attaches POP to the last epidata entry of the nested node. R36: exactly one '
@@ -110,7 +110,7 @@ _p('C02', ['R1', 'R36', 'R49', 'R28', 'R29', 'R5', 'R12', 'R64', 'R15', 'R14', '
    'search in layout.configure) is not decided.',
    'Path and pairing facts that hold on every CFG path of the anchored functions; necessary conditions of the round trip.',
    [T_CFG, T_CG])
-_p('C03', ['R4', 'R50', 'R51', 'R12', 'R28', 'R29', 'R64', 'R67', 'R14', 'R58', 'R53', 'R5', 'R36', 'R15', 'R1', 'R1b', 'R2', 'R66'],
+_p('C03', ['R4', 'R50', 'R51', 'R12', 'R28', 'R29', 'R64', 'R67', 'R14', 'R58', 'R53', 'R5', 'R36', 'R15', 'R1', 'R1b', 'R2', 'R66', 'R73', 'R74'],
    'structural type inference + truthiness-context lint; regex language intersection on model role tables; must-pass-through on the node map',
    'R4: no value typed as a constant (target, concept, tree atom) is tested for truthiness anywhere on the encode/decode paths, '
    'so 0, 0.0 and "" are never dropped. R50: only variables become keys of the node map. R51: the alignment of a quoted atom '
@@ -122,7 +122,7 @@ _p('C03', ['R4', 'R50', 'R51', 'R12', 'R28', 'R29', 'R64', 'R67', 'R14', 'R58', 
    'of layout.configure, see C06) are not decided.',
    'Type-based lint with zero tolerated sites, an exact language decision, and a path check; necessary conditions only.',
    [T_TY, T_CFG, TRUST_RE])
-_p('C04', ['R5', 'R1b', 'R8h', 'R11', 'R49', 'R51', 'R58', 'R29', 'R64', 'R6', 'R70', 'R1', 'R12', 'R4', 'R36'],
+_p('C04', ['R5', 'R1b', 'R8h', 'R11', 'R49', 'R51', 'R58', 'R29', 'R64', 'R6', 'R70', 'R1', 'R12', 'R4', 'R36', 'R73'],
    'call-graph reachability + class-override scan; typed lookup lint; regex alphabets; path conditions',
    'R5: every deinversion in interpretation goes through Model.deinvert, the hook NoOpModel overrides. R1b: a node without a '
    'concept gets (var, :instance, None) inserted at position 0, exactly when no "/" branch was seen. R58: the variable set used '
@@ -133,7 +133,7 @@ _p('C04', ['R5', 'R1b', 'R8h', 'R11', 'R49', 'R51', 'R58', 'R29', 'R64', 'R6', '
    'That the list of triples equals the documented reading for every text is not decided as a whole (depth-first order is '
    'covered by R1 under C02).',
    'Structural necessary conditions; each violation names the call or branch.', [T_CG, T_TY, TRUST_RE])
-_p('C05', ['R26', 'R27', 'R47', 'R23model', 'R14', 'R50', 'R53', 'R5', 'R67', 'R36', 'R2', 'R66', 'R4', 'R29', 'R28', 'R15'],
+_p('C05', ['R26', 'R27', 'R47', 'R23model', 'R14', 'R50', 'R53', 'R5', 'R67', 'R36', 'R2', 'R66', 'R4', 'R29', 'R28', 'R15', 'R73'],
    'symbolic list-shape evaluation; class-hierarchy check; typestate over sort/top; regex language equivalence; points-to mutation effects',
    'R26: _rearrange stores concat(b[:k], sorted(b[k:], key=key)) with k = 1 exactly under the test that establishes a leading '
    '"/" branch and k = 0 otherwise (a permutation that keeps the concept first, stable, ascending), recurses into every nested '
@@ -145,7 +145,7 @@ _p('C05', ['R26', 'R27', 'R47', 'R23model', 'R14', 'R50', 'R53', 'R5', 'R67', 'R
    'That configure of the reordered triples yields the same graph content (needs C06) is not decided.',
    'Exact symbolic facts on the anchored functions plus a whole-program mutation analysis; necessary conditions.',
    [T_CFG, T_TY, 'pv/effects.py Andersen-style points-to with type-pruned flow', TRUST_RE])
-_p('C07', ['R19', 'R9', 'R16', 'R43', 'R18', 'R35', 'R10', 'R6', 'R23lex', 'R8a', 'R8b', 'R8c', 'R8d', 'R8e', 'R8f', 'R69', 'R41', 'R59', 'R37'],
+_p('C07', ['R19', 'R9', 'R16', 'R43', 'R18', 'R35', 'R10', 'R6', 'R23lex', 'R8a', 'R8b', 'R8c', 'R8d', 'R8e', 'R8f', 'R69', 'R41', 'R59', 'R37', 'R74'],
    'token-kind abstract interpretation of the parser against a reference recogniser (bounded); typestate dataflow; call-result-use lint',
    'R19: the parser functions and TokenIterator are interpreted over token *kinds* (all sequences up to length 5, nesting 2 in '
    'the quick tier; 8 and 3 in the thorough tier) and acceptance, tree skeleton and the index of the failing token are compared '
@@ -158,7 +158,7 @@ _p('C07', ['R19', 'R9', 'R16', 'R43', 'R18', 'R35', 'R10', 'R6', 'R23lex', 'R8a'
    'bounded in length and depth; unbounded equivalence with the documented grammar is not proved.',
    'Bounded-exhaustive comparison at the level of token kinds (no input text is lexed or parsed by penman) plus exact typestate facts.',
    [T_CFG, 'pv/pfsm.py reference recogniser (hand-written from docs/notation.rst)', T_DOC])
-_p('C09', ['R6', 'R37', 'R12', 'R45', 'R8d', 'R8e', 'R23lex'],
+_p('C09', ['R6', 'R37', 'R12', 'R45', 'R8d', 'R8e', 'R23lex', 'R73'],
    'splitter regex language equivalence; reachability of the one lexer; symbolic output pieces of the stream writer',
    'R6: string input is split by a regex whose language equals \\r\\n|\\r|\\n (defect F2 was str.splitlines). R37: every '
    'decoding entry point reaches the one lexer with its argument unmodified, comments and node come from one token stream, '
@@ -175,7 +175,7 @@ _p('C10', ['R11', 'R30', 'R31', 'R52', 'R70'],
    'test against the used names and is recorded before the next search (bijection).',
    'That interpretation commutes with the renaming is not decided.',
    'CFG path facts on three functions; necessary conditions.', [T_CFG, T_TY])
-_p('C11', ['R31', 'R3', 'R38', 'R33', 'R36', 'R44', 'R62', 'R63', 'R15', 'R2', 'R66', 'R32', 'R65', 'R14', 'R64', 'R29', 'R28'],
+_p('C11', ['R31', 'R3', 'R38', 'R33', 'R36', 'R44', 'R62', 'R63', 'R15', 'R2', 'R66', 'R32', 'R65', 'R14', 'R64', 'R29', 'R28', 'R73'],
    'may-analysis of freshness; constructor-argument lint; closed-world listing of what flows into a set; control-dependence facts',
    'R31: reify_edges / Model.reify accept a new variable only after testing it against the variables in use. R3: transformed '
    'graphs are built with the argument\'s top. R38: a node enters the dereification agenda only if it is not in the fixed set, '
@@ -185,7 +185,7 @@ _p('C11', ['R31', 'R3', 'R38', 'R33', 'R36', 'R44', 'R62', 'R63', 'R15', 'R2', '
    'after a non-matching entry. R36/R44: the layout diagnostics reify_edges relies on.',
    'That dereify(reify(g)) equals g down to the text is not decided.',
    'Dataflow and path facts; necessary conditions.', [T_CFG, T_CG])
-_p('C12', ['R2', 'R3', 'R31', 'R14', 'R53', 'R24', 'R33', 'R63', 'R65', 'R66', 'R32', 'R15', 'R38', 'R50', 'R36', 'R44', 'R67', 'R4', 'R62'],
+_p('C12', ['R2', 'R3', 'R31', 'R14', 'R53', 'R24', 'R33', 'R63', 'R65', 'R66', 'R32', 'R15', 'R38', 'R50', 'R36', 'R44', 'R67', 'R4', 'R62', 'R73', 'R74'],
    'typed partial-map access lint with dominating guards; pipeline order on CFG paths; selection-predicate equivalence',
    'R2: Graph.epidata is treated as a partial map everywhere (every keyed read is guarded, uses .get, or is total by '
    'construction; defect F9). R3: every transformation passes top= (defect F12). R53: configure drops superfluous POPs before '
@@ -195,7 +195,7 @@ _p('C12', ['R2', 'R3', 'R31', 'R14', 'R53', 'R24', 'R33', 'R63', 'R65', 'R66', '
    'arguments are not mutated.',
    'That every composition returns a graph that encodes and decodes to itself is not decided (needs C06).',
    'Lint with zero tolerated sites plus path facts; necessary conditions.', [T_TY, T_CFG, 'pv/effects.py'])
-_p('C13', ['R29', 'R28', 'R23model', 'R24m', 'R30', 'R48', 'R64', 'R5'],
+_p('C13', ['R29', 'R28', 'R23model', 'R24m', 'R30', 'R48', 'R64', 'R5', 'R73'],
    'propositional equivalence of sibling predicates (truth tables over syntactic atoms); expression-flow expansion; cache-key dependence',
    'R29: is_role_inverted == (not defined and ends in -of); invert_role strips exactly when inverted and appends otherwise; '
    'has_role == defined or single inversion of a defined role; deinvert inverts once, exactly when inverted; the role pattern '
@@ -207,7 +207,7 @@ _p('C13', ['R29', 'R28', 'R23model', 'R24m', 'R30', 'R48', 'R64', 'R5'],
    'Idempotence and involution as algebraic laws over all role strings are not proved; a re-implementation of '
    '_canonicalize_inversion by other means is reported as undecided (exit 2).',
    'Exact boolean equivalences with counter-assignments; necessary conditions.', [T_CFG])
-_p('C14', ['R2', 'R1', 'R36', 'R44', 'R61', 'R66', 'R15'],
+_p('C14', ['R2', 'R1', 'R36', 'R44', 'R61', 'R66', 'R15', 'R74'],
    'partial-map lint; path checks on the context-stack simulation; module-state lint',
    'R36: node_contexts pushes the pushed variable of a triple and pops once per Pop marker (no early exit, no "any"); R44: '
    'appears_inverted answers False outright only for instance/attribute triples, compares the pushed variable with the source '
@@ -228,7 +228,7 @@ _p('C15', ['R21', 'R22', 'R23top', 'R39', 'R14', 'R54', 'R55', 'R57', 'R2', 'R13
    'That union/difference carry markers along for every operand pair is covered only by R14/R39 shapes.',
    'Exact propositional decisions over the predicates found in the source; necessary conditions (close to complete for the query clauses).',
    [T_CFG, 'pv/select.py selection summaries', 'pv/effects.py'])
-_p('C16', ['R40', 'R28', 'R29', 'R7', 'R13', 'R12'],
+_p('C16', ['R40', 'R28', 'R29', 'R7', 'R13', 'R12', 'R73', 'R74'],
    'must-pass-through on the checking loop; loop-carried status accumulation dataflow',
    'R40: Model.errors loops over all of graph.triples, tests has_role on the role the triple carries on every iteration, records '
    '"invalid role" under exactly that test, builds reachability only over targets that are variables of the graph, and records '
@@ -246,7 +246,7 @@ _p('C17', ['R14', 'R13', 'R15', 'R60', 'R61', 'R48'],
    'Determinism across processes beyond hash-order effects (e.g. random_order by design) is not decided.',
    'A sound-by-construction may-analysis (over-approximate flow, so a pass means no mutation path exists in the model) plus lints.',
    ['pv/effects.py (heap model: one object per allocation site and constructor context; strings/numbers carry no objects)', T_CG, T_TY])
-_p('C19', ['R10', 'R9', 'R41', 'R16', 'R56', 'R37', 'R18', 'R59', 'R8d', 'R8e', 'R6', 'R60', 'R61', 'R23lex', 'R69'],
+_p('C19', ['R10', 'R9', 'R41', 'R16', 'R56', 'R37', 'R18', 'R59', 'R8d', 'R8e', 'R6', 'R60', 'R61', 'R23lex', 'R69', 'R74'],
    'token-class coverage via reaching definitions; regex language decisions on TRIPLE_RE; output-shape check of the writer',
    'R56: format_triples writes role(source, target) per triple joined by " ^" and LF or space. R41: the writer strips the leading '
    'colon and the reader/Graph restores it. R10: every token class of TRIPLE_RE is handled by _parse_triple and STRING is accepted '
@@ -254,7 +254,7 @@ _p('C19', ['R10', 'R9', 'R41', 'R16', 'R56', 'R37', 'R18', 'R59', 'R8d', 'R8e', 
    'raised, no StopIteration escapes. R8d/R8e: the token classes of TRIPLE_RE are the documented ones.',
    'Equality of the parsed list with the written list for all symbol/string contents is not decided.',
    'Reaching-definition and language facts; necessary conditions.', [TRUST_RE, T_CFG])
-_p('C20', ['R24', 'R25', 'R12', 'R42', 'R7', 'R13', 'R20', 'R31', 'R38', 'R2', 'R53', 'R71', 'R72', 'R37', 'R56', 'R45', 'R47', 'R27', 'R26', 'R52', 'R33', 'R3', 'R14', 'R41', 'R10'],
+_p('C20', ['R24', 'R25', 'R12', 'R42', 'R7', 'R13', 'R20', 'R31', 'R38', 'R2', 'R53', 'R71', 'R72', 'R37', 'R56', 'R45', 'R47', 'R27', 'R26', 'R52', 'R33', 'R3', 'R14', 'R41', 'R10', 'R73', 'R74'],
    'CFG order of pipeline calls with interprocedural summaries; guard facts per option; argument threading',
    'R24: on every path through process/_process_in/_process_out the operations occur in the documented order (spec/pipeline.json). '
    'R25: every documented option is defined, feeds its own entry of the option dicts, and guards exactly its own operation. '
